@@ -82,6 +82,22 @@ CHECKS.update({
         "DESIGN.md §2 C12",
     ),
 })
+CHECKS.update({
+    "C15": (
+        "exploration",
+        "Hypothesis generated parameter sets, invalid variants and modifications; astropy-based oracle for edges and angles; modify == create(merged) differential",
+        "Generated-input search over all parameter combinations (methods, closed sides, units, scales, cosmologies incl. a custom subclass, custom edges), invalid variants and 1-4 parameter modifications; oracle derives edges/spacing/angles from astropy and compares modify() with create() on merged parameters field by field.",
+        "astropy as reference for distances; comoving edges compared in z with 2e-7 (z_at_value tolerance), end points exact",
+        "DESIGN.md §2 C15",
+    ),
+    "C11": (
+        "exploration",
+        "Hypothesis generated products; write/read round trip with library == plus independent member-wise comparison and downstream values; independent model of the fixed-width text format",
+        "Generated-input search over container contents (all member subsets, zero/sparse counts, NaN/inf, magnitudes 1e-12..1e9, 1..8 bins), configuration parameters and patch metadata; each is written and re-read and compared both with the library's == and member by member.",
+        "text precision model: 10 - len(integer part) - 1 decimals kept; custom cosmologies not serialisable (documented)",
+        "DESIGN.md §2 C11",
+    ),
+})
 NOT_YET = {}
 
 props = [json.loads(l) for l in (VERIF / "properties.jsonl").read_text().splitlines() if l.strip()]
